@@ -1,5 +1,6 @@
 import GBS.Model.AtomGen
 import GBS.Lemmas.AtomGenInv
+import GBS.Props.C17
 /-!
 # C18 — atom-graph generation (`graph_generate.py`)
 
@@ -19,6 +20,10 @@ The state machine `atomGenerate` is compared with `AtomGraph.generate()` on reco
   carries consists of graph edges leaving its stochastic node.  Side condition `fillClosed g` (the depth-first search of a residue
   is closed under static adjacency, i.e. its fuel suffices): executable, evaluated by the driver for every graph of the
   correspondence run and required to be `true` there.
+* `C18_bonds_join_compatible_descriptors` (C18 ∘ C17): for the stochastic atom graph of a description, every bond of a generated
+  molecule is the copy of a token's internal bond or joins the copies of the attachment atoms of two **compatible bond descriptors**
+  with the bond order the descriptor prescribes (every non-static graph edge comes from `_add_stochastic_bonds` /
+  `_add_transition_bonds`: `SAG_nonstatic_edge`).
 `C18_partial`: that residues are *whole*, the tree shape and termination (bounded number of oracle events) are **not** theorems here; the
 oracle checks them on every generated graph (whole residues along consecutive node ids, every inter-residue bond along a
 non-static graph edge of the same order, tree, `to_mol()` sanitises and is connected, equal seeds ⇒ equal graphs).
@@ -99,6 +104,69 @@ theorem C18_edge_lists (g : SAG) (hcl : fillClosed g = true) (fuel : Nat) (ω : 
   · exact ⟨(h1 e he).1, (h1 e he).2.1⟩
   · exact ⟨(h2 e he).1, (h2 e he).2.1⟩
   · exact ⟨(h3 e he).1, (h3 e he).2.1⟩
+
+theorem tokenStatic_static (off : Nat) (t : AToken) (e : AEdge) (h : e ∈ tokenStatic off t) :
+    e.stochastic = 0 ∧ e.termination = 0 ∧ e.transition = 0 := by
+  rw [C17_token_static] at h
+  obtain ⟨i, j, b, -, he | he⟩ := h <;> subst he <;> exact ⟨rfl, rfl, rfl⟩
+
+/-- every non-static edge of the stochastic atom graph of a molecule comes from `_add_stochastic_bonds` of one element or from
+`_add_transition_bonds` of two consecutive elements -/
+theorem SAG_nonstatic_edge (els : List AElem) (wd : Bool) (ge : AEdge) (hge : ge ∈ (stochAtomGraph els wd).edges)
+    (hk : ge.stochastic ≠ 0 ∨ ge.termination ≠ 0 ∨ ge.transition ≠ 0) :
+    (∃ e off, ge ∈ stochasticEdges (elemDescsA off e)) ∨ (∃ l r ol orr, ge ∈ transitionEdges l r ol orr) := by
+  unfold stochAtomGraph at hge
+  simp only [List.mem_append, List.mem_flatten, List.mem_map, List.mem_flatMap] at hge
+  rcases hge with ⟨es, ⟨p, ⟨⟨e, off⟩, -, rfl⟩, rfl⟩, hm⟩ | ⟨⟨⟨l, ol⟩, ⟨r, orr⟩⟩, -, hm⟩
+  · left
+    unfold elemNodesEdges at hm
+    cases e with
+    | tok t =>
+      simp only at hm
+      obtain ⟨h1, h2, h3⟩ := tokenStatic_static off t ge hm
+      rcases hk with hk | hk | hk
+      · exact absurd h1 hk
+      · exact absurd h2 hk
+      · exact absurd h3 hk
+    | stoch lft rgt reps ends mn mw =>
+      simp only [List.mem_append, List.mem_flatten, List.mem_map] at hm
+      rcases hm with ⟨l', ⟨⟨t, o⟩, -, rfl⟩, hm⟩ | hm
+      · obtain ⟨h1, h2, h3⟩ := tokenStatic_static o t ge hm
+        rcases hk with hk | hk | hk
+        · exact absurd h1 hk
+        · exact absurd h2 hk
+        · exact absurd h3 hk
+      · exact ⟨_, _, hm⟩
+  · right
+    exact ⟨l, r, ol, orr, hm⟩
+
+/-- **C18 ∘ C17**: every bond of a molecule generated from the stochastic atom graph of a description is either the copy of a token's
+internal bond, or joins the copies of the attachment atoms of two *compatible bond descriptors* of the description, with the
+bond order the descriptor prescribes -/
+theorem C18_bonds_join_compatible_descriptors (els : List AElem) (wd : Bool) (hcl : fillClosed (stochAtomGraph els wd) = true)
+    (fuel : Nat) (ω : Oracle) (r : AG) (t : Trace) (ω' : Oracle)
+    (h : atomGenerate (stochAtomGraph els wd) fuel ω = .ok (r, t, ω')) (a b bond : Nat) (he : (a, b, bond) ∈ r.edges) :
+    ∃ u v, (r.nodes.map (·.stoch))[a]? = some u ∧ (r.nodes.map (·.stoch))[b]? = some v ∧
+      (bond = staticBond (stochAtomGraph els wd) u v ∨
+       ∃ (x y : ADesc), isCompatible x.d y.d = true ∧ bond = bondNat x.d.order ∧
+         ((u = x.off + x.d.atom ∧ v = y.off + y.d.atom) ∨ (v = x.off + x.d.atom ∧ u = y.off + y.d.atom))) := by
+  obtain ⟨u, v, h1, h2, h3⟩ := C18_bonds_follow_graph _ hcl fuel ω r t ω' h a b bond he
+  refine ⟨u, v, h1, h2, ?_⟩
+  rcases h3 with h3 | ⟨ge, hg, hends, hb, hk⟩
+  · exact Or.inl h3
+  · right
+    rcases SAG_nonstatic_edge els wd ge hg hk with ⟨e, off, hm⟩ | ⟨l, rr, ol, orr, hm⟩
+    · obtain ⟨g, -, o, -, -, hc, hs, hd, hbo, -⟩ := C17_stochastic_edges _ ge hm
+      refine ⟨g, o, hc, by rw [← hb, hbo], ?_⟩
+      rcases hends with ⟨e1, e2⟩ | ⟨e1, e2⟩
+      · left; exact ⟨by rw [← e1, hs], by rw [← e2, hd]⟩
+      · right; exact ⟨by rw [← e1, hs], by rw [← e2, hd]⟩
+    · obtain ⟨x, -, y, -, -, -, hc, -, -, hs, hd, hbo, -⟩ := C17_transition_edges l rr ol orr ge hm
+      refine ⟨x, y, hc, by rw [← hb, hbo], ?_⟩
+      rcases hends with ⟨e1, e2⟩ | ⟨e1, e2⟩
+      · left; exact ⟨by rw [← e1, hs], by rw [← e2, hd]⟩
+      · right; exact ⟨by rw [← e1, hs], by rw [← e2, hd]⟩
+
 
 /-! non-vacuity: a concrete graph (`C{[>][<]CC[>];[<]C[]}`-like: prefix atom, two-atom repeat unit, one-atom end group) meets the side
 condition, and a concrete oracle generates a molecule whose bonds are the transition bond and the unit's static bond -/
